@@ -69,6 +69,10 @@ def enumerate_ops(f):
 
 def apply_model(f, op):
     k = op[0]
+    if k == "start":
+        for i in range(1, len(f.names)):
+            f.add_child(0 if op[1] == "flat" else i - 1, i)
+        return None
     if k == "add":
         return f.add_child(op[1], op[2], op[3])
     if k == "remove":
@@ -84,6 +88,10 @@ def apply_model(f, op):
 
 def apply_real(nodes, op):
     k = op[0]
+    if k == "start":
+        for i in range(1, len(nodes)):
+            (nodes[0] if op[1] == "flat" else nodes[i - 1]).add_child(nodes[i])
+        return None
     if k == "add":
         if op[3] is None:
             return nodes[op[1]].add_child(nodes[op[2]])
@@ -277,7 +285,19 @@ def bfs(ctx, names, depth):
     init = real_state(nodes, label)
     origin = {init: None}
     frontier = [init]
-    total_states = 1
+    # further start states, built through the real API: all nodes as children of node 0 (so that every shift/replace/remove on
+    # a full sibling list is explored from depth 1), and a chain
+    for shape in ("flat", "chain"):
+        for n_ in nodes:
+            n_.children = []
+            n_.parent = None
+        for i in range(1, len(nodes)):
+            (nodes[0] if shape == "flat" else nodes[i - 1]).add_child(nodes[i])
+        st = real_state(nodes, label)
+        if st not in origin:
+            origin[st] = (init, ("start", shape))
+            frontier.append(st)
+    total_states = len(origin)
     for d in range(depth):
         nxt = []
         for state in frontier:
